@@ -378,6 +378,28 @@ def r_v06(ctx):
             n = strip(e[1])[1]
             if paths.mentions_call(e[1], g0.bb) and ((n.endswith('::is_some') and e[2]) or (n.endswith('::is_none') and not e[2])):
                 dom = paths.edge_dominates(f, s, x, c.bb)
+    if not dom:
+        # `match get(..) { Ok(Some(_)) => put, Ok(None) => (), Err(e) => .. }` / `if let Some(_) = get(..)? { put }`: the Some
+        # edge of the discriminant of the looked-up Option
+        for s, x, e in paths.controlling_conds(f, c.bb):
+            if e[0] != 'disc' or not paths.mentions_call(e[1], g0.bb) or not paths.edge_dominates(f, s, x, c.bb):
+                continue
+            d0 = strip(e[1])
+            subj = strip(d0[1]) if d0[0] == 'discr' else d0
+            # the Option is the Ok payload of the get: `.0` of a downcast (Ok / Continue) of the call (possibly through `?`)
+            is_opt = subj[0] in ('field', 'try') and not (subj[0] == 'call')
+            if subj[0] == 'field' and strip(subj[1])[0] == 'downcast' and strip(subj[1])[2] in ('Ok', 'Continue'):
+                is_opt = True
+            elif subj[0] == 'try':
+                is_opt = True
+            else:
+                is_opt = False
+            vals = list(e[2])
+            if not vals and len(e) > 3 and e[3]:
+                listed = [int(v) for v, _t in paths.switch_at(f, s)['targets']]
+                vals = [v for v in (0, 1) if v not in listed]
+            if is_opt and vals == [1]:
+                dom = True
     ctx.check(dom, rule, 'only-indexes-with-metadata', c.loc(), 'guarded by metadata presence', 'the version record is written regardless of (or contrary to) the presence of metadata')
     # the probed / stamped index ranges over every u16
     from rules import every_u16
